@@ -535,6 +535,24 @@ pub fn extract_to_dir<RS: Read + Seek + HasLength>(
                 &file
             };
             let target_file = target_dir.join(new_file_name);
+            let leads_outside = {
+                let mut depth = 0i32;
+                Path::new(new_file_name).components().any(|c| match c {
+                    std::path::Component::Prefix(_) | std::path::Component::RootDir => true,
+                    std::path::Component::ParentDir => {
+                        depth -= 1;
+                        depth < 0
+                    }
+                    std::path::Component::Normal(_) => {
+                        depth += 1;
+                        false
+                    }
+                    std::path::Component::CurDir => false,
+                })
+            };
+            if leads_outside {
+                continue; // never report (or extract) members that would end up outside of target_dir
+            }
             if !target_file.exists() {
                 files_filter.push(file); // need the unmapped name here
             } else {
